@@ -31,6 +31,7 @@ func (timeoutErr) Temporary() bool { return true }
 type c07Seg struct {
 	data    []byte
 	timeout bool
+	before  func() // runs once when the delivery of this segment starts (something else happens in the world)
 }
 
 type scriptedConn struct {
@@ -40,6 +41,7 @@ type scriptedConn struct {
 	asks      []int // ciphertext bytes delivered so far at each underlying Read
 	blocked   int   // Reads issued with nothing left
 	closed    bool
+	remote    string // remote address as the accessory sees it ("" = 10.0.0.2:2)
 }
 
 func (s *scriptedConn) Read(b []byte) (int, error) {
@@ -52,6 +54,11 @@ func (s *scriptedConn) Read(b []byte) (int, error) {
 		return 0, timeoutErr{}
 	}
 	sg := &s.segs[s.pos]
+	if sg.before != nil && s.off == 0 {
+		f := sg.before
+		sg.before = nil
+		f()
+	}
 	if sg.timeout {
 		s.pos++
 		return 0, timeoutErr{}
@@ -68,7 +75,12 @@ func (s *scriptedConn) Read(b []byte) (int, error) {
 func (s *scriptedConn) Write(b []byte) (int, error)      { return len(b), nil }
 func (s *scriptedConn) Close() error                     { s.closed = true; return nil }
 func (s *scriptedConn) LocalAddr() net.Addr              { return fakeAddr("10.0.0.1:1") }
-func (s *scriptedConn) RemoteAddr() net.Addr             { return fakeAddr("10.0.0.2:2") }
+func (s *scriptedConn) RemoteAddr() net.Addr {
+	if s.remote != "" {
+		return fakeAddr(s.remote)
+	}
+	return fakeAddr("10.0.0.2:2")
+}
 func (s *scriptedConn) SetDeadline(time.Time) error      { return nil }
 func (s *scriptedConn) SetReadDeadline(time.Time) error  { return nil }
 func (s *scriptedConn) SetWriteDeadline(time.Time) error { return nil }
